@@ -490,6 +490,21 @@ func check(argv []string) int {
 		data, _ := json.MarshalIndent(ev, "", " ")
 		os.WriteFile(filepath.Join(*verif, "evidence", *prop+".json"), data, 0o644)
 	}
+	if *verbose || os.Getenv("GOVC_SLOW") != "" {
+		type sl struct {
+			n string
+			s float64
+			b string
+		}
+		var sls []sl
+		for _, or := range ors {
+			sls = append(sls, sl{or.O.Name, or.R.Secs, or.R.Backend + ":" + or.R.Status})
+		}
+		sort.Slice(sls, func(i, j int) bool { return sls[i].s > sls[j].s })
+		for i := 0; i < len(sls) && i < 8; i++ {
+			fmt.Fprintf(os.Stderr, "slow %6.1fs %-28s %s\n", sls[i].s, sls[i].b, sls[i].n)
+		}
+	}
 	fmt.Printf("property=%s tier=%s functions=%d obligations=%d discharged=%d known-findings=%d violations=%d wall=%.1fs\n",
 		*prop, *tier, len(results), nObl, nOK, len(knownHit), len(viols), time.Since(t0).Seconds())
 	return exit
